@@ -1,7 +1,7 @@
 """Helpers shared by the rule modules."""
 import ast
 
-from ..core import ntext, walk_local, AnchorMissing, Undecided, FUNC_NODES
+from ..core import acopy, ntext, walk_local, AnchorMissing, Undecided, FUNC_NODES
 from ..sym import (
     Evaluator, Opaque, Seq, DictV, Const, Closure, Phi, Cond, Template, key, ckey, as_num, num_const,
     State, Env, NONE, TRUE, FALSE, MapV, ClassRef, Ext, StrSym, OverrideV, EnumV, JoinV,
@@ -163,6 +163,25 @@ def resolve_local(f, e, depth=0):
 
     if depth > 3 or f is None or f.is_lambda:
         return ntext(e)
+    if not any(isinstance(x, ast.Name) for x in ast.walk(e)):
+        return ntext(e)
+    memo = _RL_DEFS.get(id(f.node))
+    if memo is not None and memo[0] is f.node:
+        defs = memo[1]
+    else:
+        defs = _local_defs(f)
+        if len(_RL_DEFS) > 4000:
+            _RL_DEFS.clear()
+        _RL_DEFS[id(f.node)] = (f.node, defs)
+    return _resolve_with(f, e, defs, depth)
+
+
+_RL_DEFS = {}
+
+
+def _local_defs(f):
+    import copy
+
     defs = {}
     for n in walk_local(f.node):
         if isinstance(n, ast.Assign) and len(n.targets) == 1 and isinstance(n.targets[0], ast.Name):
@@ -185,20 +204,25 @@ def resolve_local(f, e, depth=0):
                 for x in ast.walk(t):
                     if isinstance(x, ast.Name) and isinstance(x.ctx, ast.Store):
                         defs.setdefault(x.id, []).append(None)
+    return defs
+
+
+def _resolve_with(f, e, defs, depth):
+    import copy
 
     class Sub(ast.NodeTransformer):
         def visit_Name(self, node):
             if isinstance(node.ctx, ast.Load) and node.id in defs and len(defs[node.id]) == 1 and defs[node.id][0] is not None and _alias_like(defs[node.id][0]):
                 v = defs[node.id][0]
                 # do not expand self-referential definitions such as `step = int(step)` more than once
-                inner = copy.deepcopy(v)
+                inner = acopy(v)
                 if any(isinstance(x, ast.Name) and x.id == node.id for x in ast.walk(inner)):
                     return inner
                 return ast.parse(resolve_local(f, inner, depth + 1), mode="eval").body
             return node
 
     try:
-        return ntext(Sub().visit(copy.deepcopy(e)))
+        return ntext(Sub().visit(acopy(e)))
     except Exception:
         return ntext(e)
 
